@@ -73,3 +73,40 @@ impl<W: Write> Write for HashBefore<W> {
         self.writer.flush()
     }
 }
+
+// ---- C04 / C17 audit controls ------------------------------------------------------------
+pub fn c04_unguarded_index(data: &[u8], i: usize) -> u8 {
+    data[i]
+}
+pub fn c04_unchecked_add(a: u32, b: u32) -> u32 {
+    a + b
+}
+pub fn c04_alloc_from_input(n: u32) -> Vec<u8> {
+    vec![0u8; n as usize]
+}
+pub fn c04_unwrap(x: Option<u8>) -> u8 {
+    x.unwrap()
+}
+pub fn c04_guarded_index(data: &[u8], i: usize) -> u8 {
+    if i < data.len() {
+        data[i]
+    } else {
+        0
+    }
+}
+pub fn c04_bounded_alloc(n: u32) -> Vec<u8> {
+    if n > 4096 {
+        return Vec::new();
+    }
+    vec![0u8; n as usize]
+}
+pub fn c04_exhaustive_question_marks(a: Result<u8, ()>, b: Result<u8, ()>) -> Result<u8, ()> {
+    match (a, b) {
+        (Ok(x), Ok(y)) => Ok(x ^ y),
+        (a, b) => {
+            a?;
+            b?;
+            unreachable!()
+        }
+    }
+}
